@@ -48,13 +48,65 @@ package stats
 // content is the subject of C11/C12, not of these contracts); used by callers'
 // contracts to say *which* samples are tested.
 //@ func TwoSampleWelchTTest(x1, x2 TTestSample, alt LocationHypothesis) (r *TTestResult, err error)
-//@   props C17
+//@   props C17 C12
 //@   opt functional
-//@   trusted
 //@   ensures err == nil ==> r != nil
+//@   ensures (x1.Weight() <= 1.0 || x2.Weight() <= 1.0) ==> r == nil && err == ErrSampleSize
+//@   ensures !(x1.Weight() <= 1.0 || x2.Weight() <= 1.0) && x1.Variance() == 0.0 && x2.Variance() == 0.0 ==> r == nil && err == ErrZeroVariance
+//@   ensures !(x1.Weight() <= 1.0 || x2.Weight() <= 1.0) && !(x1.Variance() == 0.0 && x2.Variance() == 0.0) ==> err == nil && r != nil &&
+//@             r.N1 == int(x1.Weight()) && r.N2 == int(x2.Weight()) && r.AltHypothesis == alt &&
+//@             bits(r.T, (x1.Mean() - x2.Mean()) / math.Sqrt(x1.Variance()/x1.Weight() + x2.Variance()/x2.Weight())) &&
+//@             bits(r.DoF, welchDoF(x1.Variance(), x1.Weight(), x2.Variance(), x2.Weight())) &&
+//@             bits(r.P, tailP(alt, r.T, r.DoF))
 
 //@ func MannWhitneyUTest(x1, x2 []float64, alt LocationHypothesis) (r *MannWhitneyUTestResult, err error)
 //@   props C17
 //@   opt functional
 //@   trusted
 //@   ensures err == nil ==> r != nil
+
+// ---------------------------------------------------------------------------
+// t-tests (C12): textbook statistic, degrees of freedom and tail selection
+
+// tcdf(v, x): the Student-t distribution function with v degrees of freedom at x
+// (TDist.CDF; its numerical content is checked by the bounded stand-in).
+//@ ghost func tcdf(v float64, x float64) float64
+
+//@ func (t TDist) CDF(x float64) (p float64)
+//@   trusted
+//@   ensures bits(p, tcdf(t.V, x))
+
+// Tail selection: two-sided is twice the upper tail of |t|, less/greater the lower/upper tail.
+//@ pure func tailP(alt LocationHypothesis, t float64, dof float64) float64 =
+//@     alt == 0 ? 2.0 * (1.0 - tcdf(dof, fabs(t))) : (alt == -1 ? tcdf(dof, t) : (alt == 1 ? 1.0 - tcdf(dof, t) : 0.0))
+
+// Welch-Satterthwaite degrees of freedom.
+//@ pure func welchDoF(v1 float64, n1 float64, v2 float64, n2 float64) float64 =
+//@     math.Pow(v1/n1 + v2/n2, 2.0) / (math.Pow(v1/n1, 2.0)/(n1 - 1.0) + math.Pow(v2/n2, 2.0)/(n2 - 1.0))
+
+//@ func newTTestResult(n1, n2 int, t, dof float64, alt LocationHypothesis) (r *TTestResult)
+//@   props C12
+//@   ensures r != nil && fresh(r) && r.N1 == n1 && r.N2 == n2 && bits(r.T, t) && bits(r.DoF, dof) && r.AltHypothesis == alt
+//@   ensures bits(r.P, tailP(alt, t, dof))
+
+// Pooled-variance (Student) two-sample test.
+//@ func TwoSampleTTest(x1, x2 TTestSample, alt LocationHypothesis) (r *TTestResult, err error)
+//@   props C12
+//@   ensures (x1.Weight() == 0.0 || x2.Weight() == 0.0) ==> r == nil && err == ErrSampleSize
+//@   ensures !(x1.Weight() == 0.0 || x2.Weight() == 0.0) && x1.Variance() == 0.0 && x2.Variance() == 0.0 ==> r == nil && err == ErrZeroVariance
+//@   ensures !(x1.Weight() == 0.0 || x2.Weight() == 0.0) && !(x1.Variance() == 0.0 && x2.Variance() == 0.0) ==> err == nil && r != nil &&
+//@             r.N1 == int(x1.Weight()) && r.N2 == int(x2.Weight()) && r.AltHypothesis == alt &&
+//@             bits(r.DoF, x1.Weight() + x2.Weight() - 2.0) &&
+//@             bits(r.T, (x1.Mean() - x2.Mean()) / math.Sqrt(((x1.Weight() - 1.0)*x1.Variance() + (x2.Weight() - 1.0)*x2.Variance()) / (x1.Weight() + x2.Weight() - 2.0) * (1.0/x1.Weight() + 1.0/x2.Weight()))) &&
+//@             bits(r.P, tailP(alt, r.T, r.DoF))
+
+// One-sample test against a hypothesised mean.
+//@ func OneSampleTTest(x TTestSample, mu0 float64, alt LocationHypothesis) (r *TTestResult, err error)
+//@   props C12
+//@   ensures x.Weight() == 0.0 ==> r == nil && err == ErrSampleSize
+//@   ensures x.Weight() != 0.0 && x.Variance() == 0.0 ==> r == nil && err == ErrZeroVariance
+//@   ensures x.Weight() != 0.0 && x.Variance() != 0.0 ==> err == nil && r != nil &&
+//@             r.N1 == int(x.Weight()) && r.N2 == 0 && r.AltHypothesis == alt &&
+//@             bits(r.DoF, x.Weight() - 1.0) &&
+//@             bits(r.T, (x.Mean() - mu0) * math.Sqrt(x.Weight()) / math.Sqrt(x.Variance())) &&
+//@             bits(r.P, tailP(alt, r.T, r.DoF))
